@@ -196,6 +196,11 @@ func execLife(o *Out, id, line string) {
 					} else if strings.HasPrefix(c, "other") || !allowedClass(c) {
 						o.Violate("C09", fmt.Sprintf("%s.Read failed with class %s (%v)", typ, c, e), "class", line)
 					}
+					if e == io.ErrUnexpectedEOF && fail >= 0 && fail < len(unhx(streams[0])) && cur == 0 {
+						// the source never reported the end of the input (it fails, forever, from byte
+						// `fail` on): "unexpected EOF" can only be a rewritten I/O error
+						o.Violate("C09", fmt.Sprintf("%s reports io.ErrUnexpectedEOF although the source (%s) failed with an I/O error at byte %d and never reported EOF", typ, srcKind, fail), "io-error-as-ueof", line)
+					}
 					if e == io.EOF {
 						sawEOF = true
 						// bzip2.Reader looks for a following stream: a source that fails at (or before)
@@ -460,7 +465,7 @@ func execLife(o *Out, id, line string) {
 				if bz.OutputOffset != int64(len(cur.got)) && cur.fails == 0 {
 					o.Violate("C13", fmt.Sprintf("bzip2: OutputOffset=%d, sink accepted %d", bz.OutputOffset, len(cur.got)), "out-offset", line)
 				}
-				if bz.InputOffset != int64(len(accepted)) && !latched {
+				if bz.InputOffset != int64(len(accepted)) {
 					o.Violate("C13", fmt.Sprintf("bzip2: InputOffset=%d, Write accepted %d", bz.InputOffset, len(accepted)), "in-offset", line)
 				}
 			}
@@ -651,6 +656,16 @@ func genLife(r *Rand, tier string, emit func(string)) {
 				emit(fmt.Sprintf("lxs okcalls=%d etag=%d stream=%s", k, tag, p.streams[k%len(p.streams)]))
 			}
 		}
+	}
+	// one Write that spans several bzip2 blocks (level 1: 100000 bytes each after RLE1) over a sink
+	// that fails while a block is flushed from inside Write
+	for i := 0; i < 3; i++ {
+		d := make([]byte, 230000+r.Intn(50000))
+		for j := range d {
+			d[j] = byte(r.U64())
+		}
+		fail := []int{30000 + r.Intn(60000), 120000 + r.Intn(60000), 4}[i]
+		emit(fmt.Sprintf("lw t=bzip2 level=1 sink=%d:%s:1:9 ops=W:%s|W:%s|C|C", fail, []string{"hard", "short"}[i%2], hx(d), hx(r.Bytes(10))))
 	}
 	// writers
 	nW := 300
